@@ -96,6 +96,10 @@ def info_tier(desc, R, invoke=None):
     from vlib import project
 
     viols = []
+    if invoke is None and any(t.get("wd") for t in desc["targets"]) and len(desc["targets"]) % 2:
+        # every command runs in the directory of the workflow file: a template may then name its working directory
+        # relative to it
+        desc = dict(desc, rel_twd=True)
     with project.Project(desc, backend="slurm", invoke=invoke) as proj:
         proj.set_files({p: (t if t is not None else None) for p, t in desc["files"].items()})
         r = proj.gwf(["info"])
